@@ -434,6 +434,7 @@ func (r *c09Rig) setup() (err error) {
 		ctx, cancel := context.WithCancel(r.p.ctx)
 		r.openCtx = cancel
 		r.openDone = make(chan error, 1)
+		r.p.opened = true
 		go func(p *pair, done chan error) { done <- p.cli.Open(ctx) }(r.p, r.openDone)
 		if r.cell.Recv == "client" {
 			// the server handles the real request; its response is withheld
@@ -499,10 +500,10 @@ func (r *c09Rig) teardown() {
 		t0 := time.Now()
 		defer func() { fmt.Fprintf(os.Stderr, "teardown %v\n", time.Since(t0)) }()
 	}
+	r.p.close() // stops the dispatcher first ...
 	if r.openCtx != nil {
-		r.openCtx()
+		r.openCtx() // ... and only then lets go of a pending Open
 	}
-	r.p.close()
 	r.p, r.A, r.S, r.pendA, r.pendS, r.openDone, r.openCtx = nil, nil, nil, nil, nil, nil, nil
 	r.takeDelivered()
 }
@@ -1176,7 +1177,7 @@ func c09Supervise(r *evid.Run, job c09Job, verbose bool) string {
 		}
 		// the receiver process died while handling the case in flight
 		fn := topRepoFuncInTrace(stderr.String())
-		res := c09Result{Idx: inflight.Idx, Mut: inflight.Mut, Outcome: c09Outcome{Panic: firstLine(stderr.String()), PanicFn: fn, Terminal: true}}
+		res := c09Result{Idx: inflight.Idx, Mut: inflight.Mut, Outcome: c09Outcome{Panic: headOf(stderr.String(), 1800), PanicFn: fn, Terminal: true}}
 		res.Sig = job.Cell.prefix() + "/" + inflight.Mut.Class + "/panic-kills-process/" + fn
 		c09Record(r, job.Cell, res)
 		if verbose {
@@ -1195,7 +1196,7 @@ func c09Supervise(r *evid.Run, job c09Job, verbose bool) string {
 
 func c09Record(r *evid.Run, cell c09Cell, res c09Result) {
 	mb, _ := json.Marshal(res.Mut)
-	r.Eval(cell.prefix() + string(mb))
+	r.Eval(fmt.Sprintf("%s/rsa%d/%s", cell.prefix(), cell.Bits, mb))
 	if res.Sig != "" {
 		r.Violate(res.Sig, fmt.Sprintf("%s; outcome %+v", res.Mut, res.Outcome), c09Replay{Cell: cell, Mut: res.Mut})
 		r.Outcome("violation")
@@ -1235,4 +1236,11 @@ func firstLine(s string) string {
 		}
 	}
 	return ""
+}
+
+func headOf(s string, n int) string {
+	if len(s) > n {
+		return s[:n] + "..."
+	}
+	return s
 }
